@@ -326,6 +326,9 @@ def run_check(prop, tier, seed, P, only_units=None, quiet=False):
             json.dump(rep, fh, indent=1)
         vlines.append(f"VIOLATION property={prop} replay={rp} key={key} obs={str(r.get('obs'))[:80]!r} exp={str(r.get('exp'))[:80]!r}")
 
+    with open(os.path.join(rundir, "violations.txt"), "w") as fh:
+        for key, rs in violations:
+            fh.write(f"{tallies.get(key, len(rs))}\t{key}\t{str(rs[0].get('obs'))[:100]}\t{str(rs[0].get('exp'))[:100]}\t{str(rs[0].get('args'))[:200]}\n")
     # ---- evidence
     evals = sum(s["evals"] for s in summaries)
     cases_done = sum(s["cases_done"] for s in summaries)
@@ -377,10 +380,11 @@ def run_check(prop, tier, seed, P, only_units=None, quiet=False):
     # ---- verdict
     for l in lines:
         print(l)
-    for l in vlines[:60]:
+    vmax = int(os.environ.get("VERIF_MAX_VLINES", "40"))
+    for l in vlines[:vmax]:
         print(l)
-    if len(vlines) > 60:
-        print(f"NOTE: {len(vlines) - 60} further violation keys omitted (see evidence/{prop}.json)")
+    if len(vlines) > vmax:
+        print(f"NOTE: {len(vlines) - vmax} further violation keys omitted (all keys: build/run/{prop}/violations.txt)")
     floor = P.get("floor", {}).get(tier, 1)
     status = 0
     if violations:
